@@ -244,7 +244,10 @@ impl<'a, T> ChordsV2<'a, T> {
 
     fn drain_inputs(&mut self, drainq: &mut SmolQueue, active_layer: u16) {
         if self.ticks_to_ignore_chord > 0 {
-            drainq.extend(self.queue.drain(0..));
+            // `extend` only takes what fits into `drainq`; draining more than that would drop the
+            // rest. Leave what does not fit in the queue for the next tick.
+            let fits = std::cmp::min(drainq.capacity() - drainq.len(), self.queue.len());
+            drainq.extend(self.queue.drain(0..fits));
             return;
         }
         if self.ticks_until_next_state_change > 0
